@@ -582,7 +582,8 @@ class CallMixin:
                 return res
             if func.op == "dynmethod":
                 obj, prefix, key = func.args
-                self.event("dispatch", prefix=prefix, key=key, args=args, kwargs=dict(kwargs))
+                self.event("dispatch", prefix=prefix, key=key, args=args, kwargs=dict(kwargs),
+                           caught=[n for names in self.try_stack for n in names])
                 return Sym("dispatch", prefix, key, tuple(args), _kw(kwargs))
             if func.op == "typeof" and isinstance(func.args[0], NodeV):
                 n = func.args[0]
